@@ -158,13 +158,15 @@ func c09Header(w *World, r *Report) {
 	}
 	// decoder: constants of the slice operations on req: first strip, then [0:2] and [2:]
 	var strips []int64
-	allInstrs(decH, func(in ssa.Instruction) {
-		if sl, ok := in.(*ssa.Slice); ok && sl.Low != nil && sl.High == nil {
-			if v, ok := constIntVal(sl.Low); ok {
-				strips = append(strips, v)
+	for _, g := range staticCone(decH, 2) {
+		allInstrs(g, func(in ssa.Instruction) {
+			if sl, ok := in.(*ssa.Slice); ok && sl.Low != nil && sl.High == nil {
+				if v, ok := constIntVal(sl.Low); ok {
+					strips = append(strips, v)
+				}
 			}
-		}
-	})
+		})
+	}
 	sort.Slice(strips, func(i, j int) bool { return strips[i] > strips[j] })
 	// user id: EncodeUserId pads to 2 and reduces mod 1296; decoder parses base 36
 	eu := w.SSAFunc(w.Func("internal/streams/dns/commands", "EncodeUserId"))
@@ -187,12 +189,14 @@ func c09Header(w *World, r *Report) {
 		})
 	}
 	var pbase, pbits int64 = -1, -1
-	allInstrs(decH, func(in ssa.Instruction) {
-		if c, ok := in.(*ssa.Call); ok && isPkgFunc(sCallee(c), "strconv", "ParseUint") {
-			pbase, _ = constIntVal(c.Call.Args[1])
-			pbits, _ = constIntVal(c.Call.Args[2])
-		}
-	})
+	for _, g := range staticCone(decH, 2) {
+		allInstrs(g, func(in ssa.Instruction) {
+			if c, ok := in.(*ssa.Call); ok && isPkgFunc(sCallee(c), "strconv", "ParseUint") {
+				pbase, _ = constIntVal(c.Call.Args[1])
+				pbits, _ = constIntVal(c.Call.Args[2])
+			}
+		})
+	}
 	var problems []string
 	if randLen < 0 || len(strips) < 2 {
 		r.Undecided("R09.2", key, w.Pos(decH.Pos()), fmt.Sprintf("header constants not recognised (random part %d, strips %v)", randLen, strips))
@@ -557,13 +561,18 @@ func c10Records(w *World, r *Report) {
 		if fn == nil {
 			return out
 		}
-		allInstrs(fn, func(in ssa.Instruction) {
-			if ta, ok := in.(*ssa.TypeAssert); ok {
-				if name := rrTypeName(ta.AssertedType); name != "" {
-					out[name] = ta
+		// the per-record type switch may live in a helper of the function
+		for _, g := range staticCone(fn, 2) {
+			allInstrs(g, func(in ssa.Instruction) {
+				if ta, ok := in.(*ssa.TypeAssert); ok {
+					if name := rrTypeName(ta.AssertedType); name != "" {
+						if _, have := out[name]; !have {
+							out[name] = ta
+						}
+					}
 				}
-			}
-		})
+			})
+		}
 		return out
 	}
 	unwrap := w.SSAFunc(w.Func("internal/streams/dns/util", "UnwrapDnsResponse"))
@@ -667,6 +676,8 @@ func c10Records(w *World, r *Report) {
 			}
 			return false
 		}
+		isPrio := fn.Name() == "TypePriority"
+		fn = ta.Parent() // the function that holds the type switch (the entry point or its helper)
 		allInstrs(fn, func(in ssa.Instruction) {
 			if !region(in.Block()) {
 				return
@@ -678,7 +689,7 @@ func c10Records(w *World, r *Report) {
 						best, found = v, true
 					}
 				}
-				if x.High != nil && fn.Name() == "TypePriority" {
+				if x.High != nil && isPrio {
 					if v, ok := constIntVal(x.High); ok && v > 0 && v <= 4 {
 						best, found = v, true
 					}
